@@ -214,7 +214,27 @@ class Parser:
             self.eat(")")
             return e
         if k == "^":
-            raise Err("case-insensitive strings are not supported by the translator")
+            # ^"abc": ASCII case-insensitive literal.  It is ONE terminal (no implicit skipping inside it), so it becomes the
+            # ordered choice of all case variants of the whole string, not a sequence of per-character choices
+            self.i += 1
+            k2, v2 = self.peek()
+            if k2 != "str":
+                raise Err("^ must be followed by a string literal")
+            self.i += 1
+            letters = [c for c in v2 if (65 <= c <= 90) or (97 <= c <= 122)]
+            if len(letters) > 6:
+                raise Err("case-insensitive literal with more than 6 letters is not supported by the translator")
+            variants = [[]]
+            for c in v2:
+                if (65 <= c <= 90) or (97 <= c <= 122):
+                    lo, up = (c | 32), (c & ~32)
+                    variants = [x + [lo] for x in variants] + [x + [up] for x in variants]
+                else:
+                    variants = [x + [c] for x in variants]
+            e = ("str", variants[0])
+            for x in variants[1:]:
+                e = ("alt", e, ("str", x))
+            return e
         raise Err("unexpected token %s %r (token %d)" % (k, v, self.i))
 
 
